@@ -3,6 +3,7 @@ import Req.Lemmas.Query
 import Req.Lemmas.H1Fidelity
 import Req.Lemmas.Trim
 import Req.Client.Url
+import Req.Client.Merge
 /-!
 C01 — request fidelity: property theorems about the models of the request-building pipeline.
 
@@ -209,6 +210,52 @@ theorem query_merge_spec (raw : Bytes) (cq rq : QMap) :
 /-- non-vacuity: raw `x=1`, client {a:[1], b:[2]}, request {a:[z, ' &']} . -/
 example : mergeRawQuery [120, 61, 49] [([97], [[49]]), ([98], [[50]])] [([97], [[122], [32, 38]])] =
     [120, 61, 49, 38, 97, 61, 122, 38, 97, 61, 43, 37, 50, 54, 38, 98, 61, 50] := by decide
+
+/-! ### client defaults never override request values -/
+
+section MergeSec
+open Req.Merge Req.H1 Req.HeaderSort
+
+/-- a request-level header with at least one value survives the merge untouched. -/
+theorem merge_request_wins (ch : Option Hdr) (rh : Hdr) (kv : KV) (hkv : kv ∈ rh)
+    (hne : kv.values.isEmpty = false) : kv ∈ mergeHeaders ch rh := by
+  unfold mergeHeaders
+  cases ch with
+  | none => exact hkv
+  | some ch =>
+    apply List.mem_append.mpr
+    left
+    apply List.mem_map.mpr
+    exact ⟨kv, hkv, by simp [hne]⟩
+
+/-- a client-level header is added when the request has no entry under exactly that key. -/
+theorem merge_client_fills (ch rh : Hdr) (kv : KV) (hkv : kv ∈ ch)
+    (habs : ∀ x ∈ rh, (x.key == kv.key) = false) : kv ∈ mergeHeaders (some ch) rh := by
+  unfold mergeHeaders
+  apply List.mem_append.mpr
+  right
+  apply List.mem_filter.mpr
+  refine ⟨hkv, ?_⟩
+  simp only [Bool.not_eq_true', List.any_eq_false]
+  intro x hx
+  simpa using habs x hx
+
+/-- nothing else appears: every merged entry is a request entry, a client entry, or a request key
+that had no value filled with the client's values for that key. -/
+theorem merge_nothing_else (ch rh : Hdr) (kv : KV) (h : kv ∈ mergeHeaders (some ch) rh) :
+    kv ∈ rh ∨ kv ∈ ch ∨ ∃ r ∈ rh, r.values.isEmpty = true ∧ kv.key = r.key ∧ hdrGet? ch r.key = some kv.values := by
+  unfold mergeHeaders at h
+  rcases List.mem_append.mp h with h | h
+  · obtain ⟨r, hr, rfl⟩ := List.mem_map.mp h
+    split
+    next he =>
+      cases hg : hdrGet? ch r.key with
+      | none => exact Or.inl hr
+      | some vs => exact Or.inr (Or.inr ⟨r, hr, he, rfl, hg⟩)
+    next => exact Or.inl hr
+  · exact Or.inr (Or.inl (List.mem_filter.mp h).1)
+
+end MergeSec
 
 /-! ### HTTP/1.1 fidelity -/
 
